@@ -12,7 +12,7 @@ const char *const dsim_property = "C04";
 namespace {
 enum { NNODES = 0, FR_ALLOC = 1, FR_FREE = 2, NPENDING = 3, RESOLVER_STOP = 4, BODY = 100, DELIVERED = 200, INNER_READY = 300 /* promise registered */, INNER_DONE = 400, BODY_DONE = 500 };
 constexpr int MAXN = 40;
-enum Start { S_AWAIT = 0, S_START, S_START_PROMISE, S_DETACH, S_FUTURE_CTOR, S_NEVER, S_CLAIMED_PROMISE, S_FUTURE_CORO, S_POOL, S_JOIN, S_NKINDS };
+enum Start { S_AWAIT = 0, S_START, S_START_PROMISE, S_DETACH, S_FUTURE_CTOR, S_NEVER, S_CLAIMED_PROMISE, S_FUTURE_CORO, S_POOL, S_OWNED_PARTY, S_JOIN, S_NKINDS };
 enum Compl { C_VALUE = 0, C_THROW, C_SUSPEND_VALUE, C_SUSPEND_THROW, C_NKINDS };
 
 struct CountingStorage {
@@ -74,6 +74,17 @@ template <typename T> cocls::async<T> body(int id, vs::Counted arg) { NODE_BODY 
 template <typename T> cocls::with_allocator<CountingStorage, cocls::async<T>> body_counted(CountingStorage &, int id, vs::Counted arg) { NODE_BODY }
 template <typename T> cocls::future<T> body_future(int id, vs::Counted arg) { NODE_BODY }
 
+template <typename T, typename F> void observe_future(int id, F &f);
+// a bound party that nobody but the coroutine's own frame keeps alive: future + callback awaiter in one heap object whose last
+// reference is an argument of the coroutine (an "operation" object handed to the coroutine that completes it)
+template <typename T> struct Party {
+    int id; cocls::future<T> f;
+    cocls::suspend_point<void> on_done(cocls::awaiter *) noexcept { observe_future<T>(id, f); return {}; }
+    cocls::call_fn_awaiter<Party, &Party::on_done> awt;
+    explicit Party(int i) : id(i), awt(this) {}
+    ~Party() { if (dsim::cell_get(DELIVERED + id) != 1) dsim::fail("C04.delivery", "the party bound to coroutine %d (kept alive only by that coroutine's frame) was destroyed before the result reached it", id); }
+};
+template <typename T> cocls::async<T> body_owned(int id, vs::Counted arg, std::shared_ptr<Party<T>> keep) { (void)keep; NODE_BODY }
 template <typename T> cocls::async<T> make(int id) {
     if (W->nodes[id].counting_frame) return body_counted<T>(g_storage, id, vs::Counted(id));
     return body<T>(id, vs::Counted(id));
@@ -130,6 +141,13 @@ template <typename T> cocls::async<void> run_child_t(int id) {
         break; }
     case S_FUTURE_CORO: { cocls::future<T> f = body_future<T>(id, vs::Counted(id)); maybe_resolve_here(id); co_await f.has_value(); observe_future<T>(id, f); break; }
     case S_POOL: { auto f = W->pool->run(make<T>(id)); maybe_resolve_here(id); co_await f.has_value(); observe_future<T>(id, f); break; }
+    case S_OWNED_PARTY: {
+        auto party = std::make_shared<Party<T>>(id);
+        auto p = party->f.get_promise();
+        if (!party->f.subscribe(&party->awt)) dsim::fail("C04.harness", "cannot subscribe to a pending future");
+        auto co = body_owned<T>(id, vs::Counted(id), std::move(party));     // from here on the frame holds the only reference
+        if (!co.start(p)) dsim::fail("C04.start_promise", "start(promise) refused a fresh promise");
+        maybe_resolve_here(id); break; }
     default: {   // S_JOIN: blocking join() on a helper thread (join() is not for coroutines); such children are leaves that complete at once
         std::thread t([id] {
             try { if constexpr (std::is_void_v<T>) { make<T>(id).join(); delivered(id, 1, 0); } else { auto r = make<T>(id).join(); delivered(id, 1, payload(r)); } }
